@@ -1,6 +1,6 @@
 """Model of the three item emitters (enum / struct / newtype) shared by the template rules."""
 import re
-from lib import walk, nodes, src, psrc, guards, gtext, templates_in, pat_top_variants
+from lib import walk, nodes, src, psrc, guards, gtext, templates_in, pat_top_variants, Canon
 import tmplparse as tp
 
 
@@ -25,12 +25,14 @@ class Tmpl:
         self.bound_outer = lets[0] if lets else None
 
     def conds(self):
-        """Guards other than let-bindings."""
-        return [g for g in self.guards if g[0] != "let"]
+        """Guards other than let-bindings (name-independent rendering when the emitter was normalised)."""
+        gs = getattr(self, "cguards", None) or self.guards
+        return [g for g in gs if g[0] != "let"]
 
     def arm_of(self, scrut_sub):
         """Pattern text of the enclosing arm of a match whose scrutinee mentions scrut_sub."""
-        for g in self.guards:
+        gs = getattr(self, "cguards", None) or self.guards
+        for g in gs:
             if g[0] == "arm" and scrut_sub in g[3]:
                 return g[1]
         return None
@@ -42,7 +44,10 @@ class Tmpl:
 class Emitter:
     def __init__(self, facts, crate, h):
         self.h = h
+        self.c = crate
         self.fn = h["fn"]
+        self._canon = None
+        self._hc = {}
         self.templates = [Tmpl(n, anc, syn) for (n, anc, syn) in templates_in(facts, crate, h) if syn]
         self.decl = None
         for t in self.templates:
@@ -51,8 +56,124 @@ class Emitter:
                     if self.decl is None:
                         self.decl = (t, it)
 
+    def canon(self):
+        if self._canon is None:
+            self._canon = Canon(self.c, self.h, max_depth=4)
+        return self._canon
+
+    def hole_canon(self):
+        """{hole name: provenance string} for every hole of every template of this emitter."""
+        if not self._hc:
+            cn = self.canon()
+            for t in self.templates:
+                for a in t.node.get("args", []):
+                    if a.get("hole") and a["path"] not in self._hc:
+                        self._hc[a["path"]] = cn.r(a)
+        return self._hc
+
+    def roles(self, table):
+        """Map the emitter's actual hole names to role names: table = [(role, regex over the hole's provenance)].
+        Returns {actual name: role}; rules then read templates with role names, whatever the locals are called."""
+        import re as _re
+        out = {}
+        for name, cs in self.hole_canon().items():
+            for role, rx in table:
+                if _re.search(rx, cs):
+                    out.setdefault(name, role)
+                    break
+        return out
+
+    def ntext(self, t, rolemap, squash=True):
+        """Template text with hole names replaced by roles (unmapped holes keep a `?` prefix)."""
+        def ren(tt):
+            out = []
+            for x in tt:
+                if x["t"] == "hole":
+                    y = dict(x)
+                    y["name"] = rolemap.get(x["name"], "?" + x["name"])
+                    out.append(y)
+                elif x["t"] in ("group", "rep"):
+                    y = dict(x)
+                    y["body"] = ren(x["body"])
+                    out.append(y)
+                else:
+                    out.append(x)
+            return out
+        s = tp.flat(ren(t.tt))
+        return tp.squash(s) if squash else s
+
+    def ntt(self, t, rolemap):
+        def ren(tt):
+            out = []
+            for x in tt:
+                if x["t"] == "hole":
+                    y = dict(x)
+                    y["name"] = rolemap.get(x["name"], "?" + x["name"])
+                    out.append(y)
+                elif x["t"] in ("group", "rep"):
+                    y = dict(x)
+                    y["body"] = ren(x["body"])
+                    out.append(y)
+                else:
+                    out.append(x)
+            return out
+        return ren(t.tt)
+
+    def normalise(self, table):
+        """Rename holes (and the lets they are bound to) to role names, and recompute the structural views."""
+        R = self.roles(table)
+        self.rolemap = R
+        self.actual = {v: k for k, v in R.items()}
+        cn = self.canon()
+        for t in self.templates:
+            t.tt = self.ntt(t, {**{h[0]: h[0] for h in t.holes()}, **R})
+            t.text = tp.squash(tp.flat(t.tt))
+            t.items = tp.split_items(t.tt)
+            t.impls = tp.find_impls(t.tt)
+            t.bound = R.get(t.bound, t.bound)
+            t.bound_outer = R.get(t.bound_outer, t.bound_outer)
+            t.cguards = cguards(cn, t.anc, t.node, R)
+        self.decl = None
+        for t in self.templates:
+            for it in t.items:
+                if it["kind"] in ("struct", "enum") and str(it.get("name", "")).startswith("#") and not any(g[0] == "if" and "struct_builder" in g[1] for g in t.guards):
+                    if self.decl is None:
+                        self.decl = (t, it)
+        return self
+
+    def let_of(self, role):
+        """The `let` statement(s) binding the local that plays `role`."""
+        name = self.actual.get(role, role)
+        return [n for n, _ in nodes(self.h["body"], "let") if n["pat"].get("k") == "bind" and n["pat"]["name"] == name]
+
+    def derive_set_ops(self):
+        """(method, string literals, canonical guards, node) for every mutation of the derive-set parameter (found by its type)."""
+        f = self.c.fns.get(self.fn, {})
+        pname = None
+        for i, ty in enumerate(f.get("inputs", [])):
+            if "BTreeSet<&" in ty and "str" in ty and i < len(self.h.get("params", [])):
+                p = self.h["params"][i]
+                if p.get("k") == "bind":
+                    pname = p["name"]
+        out = []
+        if pname is None:
+            return out, None
+        cn = self.canon()
+        for n, anc in nodes(self.h["body"], "mcall"):
+            r = n["recv"]
+            while isinstance(r, dict) and r.get("k") == "ref":
+                r = r["e"]
+            if isinstance(r, dict) and r.get("k") == "path" and r.get("res") == "local" and r["path"] == pname and n["name"] in ("extend", "insert", "remove", "retain", "clear", "append"):
+                lits = {x["v"]["str"] for x, _ in walk(n["args"]) if x.get("k") == "lit" and "str" in x["v"]}
+                out.append((n["name"], lits, cguards(cn, anc, n, self.rolemap), n))
+        return out, pname
+
     def used_as_hole(self, name):
-        return [t for t in self.templates if any(h[0] == name for h in t.holes())]
+        names = {name, getattr(self, "rolemap", {}).get(name, name), getattr(self, "actual", {}).get(name, name)}
+        return [t for t in self.templates if any(h[0] in names for h in t.holes())]
+
+
+from lib import cguards  # noqa: E402
 
 
 def find_emitters(facts, crate):
@@ -72,6 +193,9 @@ def find_emitters(facts, crate):
             out.setdefault("newtype", e)
         elif it["kind"] == "struct":
             out.setdefault("struct", e)
+    for kind, table in (("enum", ENUM_ROLES), ("struct", STRUCT_ROLES), ("newtype", NEWTYPE_ROLES)):
+        if kind in out:
+            out[kind].normalise(table)
     return out
 
 
@@ -80,3 +204,65 @@ TRAIT_PATHS = {
     "FromStr": "::std::str::FromStr",
     "Display": "::std::fmt::Display",
 }
+
+
+# provenance -> role, shared by the template rules (regexes over Canon renderings)
+COMMON_ROLES = [
+    ("type_name", r"^format_ident!\(\$\S*~TypeEntry(Enum|Struct|Newtype)\.name\)$"),
+    ("doc", r"^make_doc\("),
+    ("derives", r"^strings_to_derives\("),
+    ("default_stream", r"^self\.output_value\(.*\.default"),
+]
+NEWTYPE_ROLES = COMMON_ROLES + [
+    ("constraint_impl", r"^match \S*\.constraints \{ TypeEntryNewtypeConstraints::None => quote!"),
+    ("inner_type_name", r"^\S*\.id_to_entry\.get\(\S*\.type_id\)\.unwrap\(\)\.type_ident\(\S* None\)$"),
+    ("vis", r"^match \S*\.constraints \{ TypeEntryNewtypeConstraints::None => Some\(quote!"),
+    ("not", r"^match \S*\.constraints \{ TypeEntryNewtypeConstraints::EnumValue\(_\) => true \| _ => false \}\.then\("),
+    ("value_output", r"^\S*constraints~(DenyValue|EnumValue)\.iter\(\)\.map\(.*\.output_value\("),
+    ("max", r"^\S*String\.max_length\.map\("),
+    ("min", r"^\S*String\.min_length\.map\("),
+    ("pat", r"^\S*String\.pattern\.map\("),
+    ("v", r"^elem<\S*String\.(max|min)_length>$"),
+    ("p", r"^elem<\S*String\.pattern>$"),
+    ("err", r"^format!\("),
+    ("default_impl", r"^\S*\.default\.map\(\|\.\.\| quote!"),
+    ("str_impl", r"^match \S* \{ TypeEntryDetails::String => true \| _ => false \}\.then\("),
+    ("from_str_impl", r"^\(\S*\.has_impl\(\S* TypeSpaceImpl::FromStr\) And !match"),
+    ("display_impl", r"^\S*\.has_impl\(\S* TypeSpaceImpl::Display\)\.then\("),
+    ("constraint_impl", r"^match \S*\.constraints \{ TypeEntryNewtypeConstraints::None => quote!"),
+]
+ENUM_ROLES = COMMON_ROLES + [
+    ("old_name", r"\.rename~Some$"),
+    ("tag", r"\.tag_type~(Internal|Adjacent)\.tag$"),
+    ("content", r"\.tag_type~Adjacent\.content$"),
+    ("serde_options", r"^vec\["),
+    ("serde", r"^!vec\[.*\.is_empty\(\)\.then\("),
+    ("simple_enum_impl", r"^\S*contains\(TypeEntryEnumImpl::AllSimpleVariants\)\.then\("),
+    ("match_variants", r"\.variants\.iter\(\)\.map\(.*\.unzip\(\)\.0$"),
+    ("match_strs", r"\.variants\.iter\(\)\.map\(.*\.unzip\(\)\.1$"),
+    ("display_strs", r"\.unzip\(\)\.1\.iter\(\)\.map\("),
+    ("variant_name", r"^\S*\.variants\.iter\(\)\.map\(\|\.\.\| format_ident!\(elem<\S*\.variants\.iter\(\)>\.ident_name\.unwrap\(\)\)\)$"),
+    ("variants_decl", r"\.variants\.iter\(\)\.map\(\|\.\.\| output_variant\("),
+    ("simple_enum_impl", r"contains\(TypeEntryEnumImpl::AllSimpleVariants\)\.then\("),
+    ("untagged_newtype_from_string_impl", r"contains\(TypeEntryEnumImpl::UntaggedFromStr\)\.then\("),
+    ("untagged_newtype_to_string_impl", r"contains\(TypeEntryEnumImpl::UntaggedDisplay\)\.then\("),
+    ("default_impl", r"^\S*\.default\.map\(\|\.\.\| quote!"),
+    ("convenience_from", r"^quote!\(.*fold\("),
+]
+STRUCT_ROLES = COMMON_ROLES + [
+    ("old_name", r"\.rename~Some$"),
+    ("serde_options", r"^vec\[(quote!\(.*)?\]$|^vec\[quote"),
+    ("serde", r"^!vec\[.*\.is_empty\(\)\.then\("),
+    ("prop_doc", r"^vec\[elem<\S*\.properties\.iter\(\)>\.description\.map\("),
+    ("prop_serde", r"^vec\[generate_serde_attr\(.*\)\.0\]$"),
+    ("prop_name", r"^vec\[format_ident!\(elem<\S*\.properties\.iter\(\)>\.name\)\]$"),
+    ("prop_error", r"^vec\[format!\(elem<\S*\.properties\.iter\(\)>\.name\)\]$"),
+    ("prop_type", r"^vec\[\S*\.type_ident\(\S* None\)\]$"),
+    ("prop_type_scoped", r"^vec\[\S*\.type_ident\(\S* Some\("),
+    ("prop_default", r"^vec\[match generate_serde_attr\(.*\.iter\(\)\.map\(|^vec\[match generate_serde_attr"),
+    ("err_msg", r"~None$"),
+    ("custom_fn", r"~Custom$"),
+    ("default_fn", r"~Default$|^parse_str\("),
+    ("value_ident", r"^if vec\[.*\.is_empty\(\) quote!"),
+    ("d", r"^elem<elem<\S*\.properties\.iter\(\)>\.description>$"),
+]
